@@ -32,6 +32,9 @@ static int init_sid = -1;
 static bool with_op = false;
 // OpMode "shared" of History.tla: ONE operation object, kept by the caller, registered with every generator of the behaviour
 static bool shared_op = false;
+// OpMode "pair": two operations whose order matters (first electron locked with a rotation of the whole event, then every gamma
+// locked into another cone), registered in that order with every generator - each generator has objects of its own
+static bool pair_op = false;
 static std::shared_ptr<bxdecay0::momentum_direction_lock_event_op> the_shared_op;
 
 static void configure(decay0_generator & g, const std::string & c_)
@@ -59,7 +62,14 @@ static void configure(decay0_generator & g, const std::string & c_)
       g.set_decay_dbd_esum_range(std::atof(win.substr(0, colon).c_str()), std::atof(win.substr(colon + 1).c_str()));
     }
   }
-  if (with_op && shared_op) {
+  if (with_op && pair_op) {
+    auto op1 = std::make_shared<bxdecay0::momentum_direction_lock_event_op>();
+    op1->set(bxdecay0::ELECTRON, 0, 0.3, 0.4, 0.866, 0.3, false);
+    g.add_operation(op1);
+    auto op2 = std::make_shared<bxdecay0::momentum_direction_lock_event_op>();
+    op2->set(bxdecay0::GAMMA, -1, 1.0, 0.0, 0.0, 0.2, false);
+    g.add_operation(op2);
+  } else if (with_op && shared_op) {
     if (!the_shared_op) {
       the_shared_op = std::make_shared<bxdecay0::momentum_direction_lock_event_op>();
       the_shared_op->set(bxdecay0::GAMMA, 0, 0.0, 0.0, 1.0, 0.5, false);
@@ -99,7 +109,7 @@ static std::string canon(const std::string & cfg, const std::string & s)
   n_canon++;
   std::string out;
   if (!self_exe.empty()) {
-    std::string cmd = "'" + self_exe + "' --canon '" + cfg + "' '" + s + "'" + (with_op ? " --with-op" : "") + " 2>/dev/null";
+    std::string cmd = "'" + self_exe + "' --canon '" + cfg + "' '" + s + "'" + (pair_op ? " --pair-op" : with_op ? " --with-op" : "") + " 2>/dev/null";
     FILE * pf = popen(cmd.c_str(), "r");
     if (pf) {
       char buf[4096];
@@ -238,8 +248,10 @@ int main(int argc, char ** argv)
   for (int i = 1; i < argc; i++) {
     std::string a = argv[i];
     if (a == "--canon" && i + 2 < argc) {
-      for (int j = i + 3; j < argc; j++)
+      for (int j = i + 3; j < argc; j++) {
         if (std::string(argv[j]) == "--with-op") with_op = true;
+        if (std::string(argv[j]) == "--pair-op") with_op = pair_op = true;
+      }
       std::string fp = canon_here(argv[i + 1], argv[i + 2]);
       std::cout << "CANON<" << fp << ">CANON" << std::endl;
       return 0;
@@ -252,6 +264,7 @@ int main(int argc, char ** argv)
     else if (a == "--budget") budget = std::atof(argv[++i]);
     else if (a == "--with-op") with_op = true;
     else if (a == "--shared-op") with_op = shared_op = true;
+    else if (a == "--pair-op") with_op = pair_op = true;
   }
   std::ifstream in(graph);
   std::string line;
